@@ -108,7 +108,7 @@ PROPS = {
                 pending=['rand0_range ([0,1) for every generator state)', 'shuffle result is a permutation (length proved)']),
     'C20': dict(obligations=lambda: P('SqProps.C20') + TIE_LEX,
                 slices=['errmsg'], monitors=['c20'],
-                pending=['lineno_is_physical_line (loop invariant over a whole text)']),
+                pending=['the offending token handed to p_error is a token of the text (parser-level suffix property)']),
 }
 
 for _k, _v in PROPS.items():
